@@ -13,7 +13,7 @@ import (
 func init() {
 	Drivers["C06"] = driveC06
 	Levels["C06"] = "exploration"
-	Rules["C06"] = "one run = one dynamic-scope world: a root document whose if/then/else sends instances down one of two chains of 0-3 schema resources each (embedded in the root document with relative/absolute $id, or separate Loader documents), every resource with $dynamicAnchor a, $anchor a or neither, hops by $ref / fragment-less $dynamicRef / allOf / anyOf / oneOf / if-then wrappers, both chains ending in one resource whose $dynamicRef is in fragment (#a), resource-relative (other.json#a, target on or off the path) or pointer (#/$defs/a) form; then a history of 6-16 Validate calls on ONE Resolved alternating between the chains, with right, wrong and absent markers and non-object instances, under 4 map-order schedules. Oracles: every verdict equals the 6-line outermost-first model and the verdict of the same call on a freshly resolved copy. Non-trivial = some call's dynamic target differs from its static target AND the previous call took the other chain. Distinct = hash(world text, history) x order-vector hash."
+	Rules["C06"] = "one run = one dynamic-scope world: a root document whose if/then/else sends instances down one of two chains of 0-3 schema resources each (embedded in the root document with relative/absolute $id, or separate Loader documents), every resource with $dynamicAnchor a, $anchor a or neither, hops by $ref / fragment-less $dynamicRef / allOf / anyOf / oneOf / if-then wrappers, optionally with a detour into and out of another anchor-declaring resource through a failing anyOf branch, each resource entered at its root or at a subschema named by pointer or plain anchor (so that its root is never evaluated), both chains ending in one resource whose $dynamicRef is in fragment (#a), resource-relative (other.json#a, target on or off the path) or pointer (#/$defs/a) form; then a history of 6-16 Validate calls on ONE Resolved alternating between the chains, with right, wrong and absent markers and non-object instances, under 4 map-order schedules. Oracles: every verdict equals the 6-line outermost-first model and the verdict of the same call on a freshly resolved copy. Non-trivial = some call's dynamic target differs from its static target AND the previous call took the other chain. Distinct = hash(world text, history) x order-vector hash."
 	Assumptions["C06"] = append([]string{
 		"model: if the statically resolved target of the $dynamicRef was named by a plain-name fragment and carries $dynamicAnchor of that name, the target is the a-subschema of the first resource on the evaluation path (root first) that declares $dynamicAnchor a, or the static target if there is none; otherwise the static target (2020-12 core section 8.2.3.2)",
 		"intermediate hops are lexical ($ref, or $dynamicRef without fragment); the purely topological single-document clause is a by-product, what is claimed is the history and Loader-layout clause",
@@ -31,6 +31,7 @@ type dynRes struct {
 	Hop    string // how it reaches the next resource
 	Next   *dynRes
 	Body   map[string]any
+	Entry  string // "" = entered at its root; "#/$defs/entry" or "#ent" = entered at a subschema, the root is never evaluated
 }
 
 type dynWorld struct {
@@ -44,6 +45,9 @@ type dynWorld struct {
 	Dynamic bool // the final reference acts dynamically
 	RootDoc string
 	Docs    map[string]string // remote documents by URI
+	Fanout  bool              // the root sends property A down chain A and property B down chain B in ONE call
+	Detour  *dynRes           // a resource (declaring the dynamic anchor) that is entered and left again, through a failing anyOf branch, before the chain continues
+	DetAt   *dynRes           // the resource (or root) whose hop makes the detour
 }
 
 const dynRootURI = "http://d.test/s/root.json"
@@ -73,12 +77,25 @@ func refTo(c *Ctx, from, to *dynRes) string {
 	return ok[c.W(len(ok))]
 }
 
-func genDynWorld(c *Ctx) *dynWorld {
+// hopRef is the reference a hop uses to enter resource to.
+func hopRef(c *Ctx, from, to *dynRes) string {
+	if to.Entry == "" {
+		return refTo(c, from, to)
+	}
+	return refTo(c, from, to) + "#" + fragEscape(to.Entry[1:])
+}
+
+func genDynWorld(c *Ctx) *dynWorld { return genDynWorldOpt(c, false) }
+
+// genDynWorldOpt: with fanout the root always evaluates both chains in one call.
+func genDynWorldOpt(c *Ctx, fanout bool) *dynWorld {
 	w := &dynWorld{Docs: map[string]string{}}
+	w.Fanout = c.W(3) == 0 || fanout
 	w.Root = &dynRes{Name: "root", URI: dynRootURI, Marker: "T_root", Anchor: []int{0, 0, 1, 2}[c.W(4)]}
 	n := 1 + c.W(5) // resources besides root (incl. final)
 	for i := 0; i < n; i++ {
-		r := &dynRes{Idx: i, Name: fmt.Sprintf("r%d", i), Marker: fmt.Sprintf("T_%d", i), Anchor: c.W(3)}
+		r := &dynRes{Idx: i, Name: fmt.Sprintf("r%d", i), Marker: fmt.Sprintf("T_%d", i), Anchor: []int{0, 1, 2, 2}[c.W(4)]}
+		r.Entry = []string{"", "", "#/$defs/entry", "#ent"}[c.W(4)]
 		switch c.W(4) {
 		case 0, 1:
 			r.Remote = true
@@ -163,16 +180,57 @@ func genDynWorld(c *Ctx) *dynWorld {
 		w.RefForm, w.RefText, w.Static = "pointer", "#/$defs/a", w.Final
 		w.Dynamic = false
 	}
+	// A detour: entered through a failing anyOf branch and left again before the chain continues.
+	if c.W(2) == 0 {
+		var holders []*dynRes
+		holders = append(holders, w.Root)
+		for p := 0; p < 2; p++ {
+			for _, r := range w.Paths[p] {
+				if r != w.Final {
+					holders = append(holders, r)
+				}
+			}
+		}
+		w.DetAt = holders[c.W(len(holders))]
+		d := &dynRes{Idx: 90, Name: "det", Marker: "T_det", Anchor: 2}
+		if w.DetAt.Remote || c.W(2) == 0 {
+			d.Remote = true
+			d.URI = "http://d.test/s/det.json"
+		} else {
+			d.IDText = "det-emb.json"
+			d.URI = "http://d.test/s/det-emb.json"
+		}
+		w.Detour = d
+		db := map[string]any{"not": map[string]any{}, "$defs": map[string]any{"a": markerSchema(d)}}
+		if d.IDText != "" {
+			db["$id"] = d.IDText
+		}
+		d.Body = db
+	}
 	// Bodies.
 	hops := []string{"$ref", "$dynamicRef", "allOf", "anyOf", "oneOf", "if-then"}
 	build := func(r *dynRes, next *dynRes) {
-		b := map[string]any{"$defs": map[string]any{"a": markerSchema(r)}}
+		defs := map[string]any{"a": markerSchema(r)}
+		root := map[string]any{"$defs": defs}
 		if r.IDText != "" {
-			b["$id"] = r.IDText
+			root["$id"] = r.IDText
+		}
+		b := root // the subschema that is entered and holds the hop
+		if r.Entry != "" {
+			b = map[string]any{}
+			if r.Entry == "#ent" {
+				b["$anchor"] = "ent"
+			}
+			defs["entry"] = b
+			// the root itself must not be what accepts or rejects: make it irrelevant but non-empty
+			root["title"] = "root of " + r.Name + " (never evaluated)"
 		}
 		if next != nil {
-			ref := refTo(c, r, next)
+			ref := hopRef(c, r, next)
 			r.Hop = pick(c, hops)
+			if strings.Contains(ref, "#") && r.Hop == "$dynamicRef" {
+				r.Hop = "$ref" // a $dynamicRef with a fragment would itself be a candidate for dynamic behaviour
+			}
 			switch r.Hop {
 			case "$ref":
 				b["$ref"] = ref
@@ -184,8 +242,16 @@ func genDynWorld(c *Ctx) *dynWorld {
 				b["if"] = map[string]any{}
 				b["then"] = map[string]any{"$ref": ref}
 			}
+			if r == w.DetAt {
+				// enter the detour resource first (it always fails), then take the real hop
+				for _, k := range []string{"$ref", "$dynamicRef", "allOf", "anyOf", "oneOf", "if", "then"} {
+					delete(b, k)
+				}
+				r.Hop = "anyOf-detour"
+				b["anyOf"] = []any{map[string]any{"$ref": refTo(c, r, w.Detour)}, map[string]any{"$ref": ref}}
+			}
 		}
-		r.Body = b
+		r.Body = root
 	}
 	for p := 0; p < 2; p++ {
 		for i, r := range w.Paths[p] {
@@ -201,15 +267,48 @@ func genDynWorld(c *Ctx) *dynWorld {
 		}
 	}
 	build(w.Final, nil)
-	w.Final.Body["$dynamicRef"] = w.RefText
+	if w.Final.Entry != "" {
+		w.Final.Body["$defs"].(map[string]any)["entry"].(map[string]any)["$dynamicRef"] = w.RefText
+	} else {
+		w.Final.Body["$dynamicRef"] = w.RefText
+	}
 	// Root document.
 	root := map[string]any{
 		"$schema": "https://json-schema.org/draft/2020-12/schema",
 		"if":      map[string]any{"properties": map[string]any{"p": map[string]any{"const": "A"}}, "required": []any{"p"}},
-		"then":    map[string]any{"$ref": refTo(c, w.Root, w.Paths[0][0])},
-		"else":    map[string]any{"$ref": refTo(c, w.Root, w.Paths[1][0])},
+		"then":    map[string]any{"$ref": hopRef(c, w.Root, w.Paths[0][0])},
+		"else":    map[string]any{"$ref": hopRef(c, w.Root, w.Paths[1][0])},
+	}
+	if w.Fanout {
+		root = map[string]any{
+			"$schema": "https://json-schema.org/draft/2020-12/schema",
+			"properties": map[string]any{
+				"A": map[string]any{"$ref": hopRef(c, w.Root, w.Paths[0][0])},
+				"B": map[string]any{"$ref": hopRef(c, w.Root, w.Paths[1][0])},
+			},
+		}
+	}
+	if w.DetAt == w.Root {
+		wrap := func(ref any) map[string]any {
+			return map[string]any{"anyOf": []any{map[string]any{"$ref": refTo(c, w.Root, w.Detour)}, ref}}
+		}
+		if w.Fanout {
+			pr := root["properties"].(map[string]any)
+			pr["A"] = wrap(pr["A"])
+			pr["B"] = wrap(pr["B"])
+		} else {
+			root["then"] = wrap(root["then"])
+			root["else"] = wrap(root["else"])
+		}
 	}
 	defs := map[string]any{"a": markerSchema(w.Root)}
+	if w.Detour != nil {
+		if w.Detour.Remote {
+			w.Docs[w.Detour.URI] = JSON(w.Detour.Body)
+		} else {
+			defs["det"] = w.Detour.Body
+		}
+	}
 	for _, r := range w.Res {
 		if r.Remote {
 			w.Docs[r.URI] = JSON(r.Body)
@@ -276,7 +375,30 @@ func (w *dynWorld) history(c *Ctx) []dynCall {
 	for _, r := range w.Res {
 		markers = append(markers, r.Marker)
 	}
-	for i := 0; i < n; i++ {
+	for i := 0; i < n && w.Fanout; i++ {
+		inst := map[string]any{}
+		valid := true
+		note := ""
+		for p, key := range []string{"A", "B"} {
+			exp := w.expected(p)
+			switch c.W(6) {
+			case 0: // absent
+			case 1:
+				inst[key] = pick(c, []any{"str", 5.0, nil})
+			case 2, 3:
+				inst[key] = map[string]any{"t": exp}
+			default:
+				m := pick(c, markers)
+				inst[key] = map[string]any{"t": m}
+				if m != exp {
+					valid = false
+				}
+				note += key + "=" + m + " "
+			}
+		}
+		out = append(out, dynCall{Inst: inst, Path: c.W(2), Valid: valid, Note: "fan-out " + note})
+	}
+	for i := 0; i < n && !w.Fanout; i++ {
 		p := c.W(2)
 		pv := "A"
 		if p == 1 {
@@ -302,7 +424,7 @@ func (w *dynWorld) describe() map[string]any {
 	paths := [2][]string{}
 	for p := 0; p < 2; p++ {
 		for _, r := range w.Paths[p] {
-			paths[p] = append(paths[p], fmt.Sprintf("%s(%s,%s,hop=%s)", r.Name, []string{"-", "anchor", "dynamicAnchor"}[r.Anchor], map[bool]string{true: "remote", false: "embedded"}[r.Remote], r.Hop))
+			paths[p] = append(paths[p], fmt.Sprintf("%s(%s,%s,hop=%s,entered-at=%q)", r.Name, []string{"-", "anchor", "dynamicAnchor"}[r.Anchor], map[bool]string{true: "remote", false: "embedded"}[r.Remote], r.Hop, r.Entry))
 		}
 	}
 	docs := map[string]any{}
@@ -310,8 +432,13 @@ func (w *dynWorld) describe() map[string]any {
 		docs[k] = json.RawMessage(v)
 	}
 	return map[string]any{"root": json.RawMessage(w.RootDoc), "remote_documents": docs, "chainA": paths[0], "chainB": paths[1],
-		"root_anchor": w.Root.Anchor, "final_dynamicRef": w.RefText, "form": w.RefForm, "static_target": w.Static.Name, "acts_dynamically": w.Dynamic,
-		"expectedA": w.expected(0), "expectedB": w.expected(1)}
+		"root_anchor": w.Root.Anchor, "fan_out": w.Fanout, "final_dynamicRef": w.RefText, "form": w.RefForm, "static_target": w.Static.Name, "acts_dynamically": w.Dynamic,
+		"expectedA": w.expected(0), "expectedB": w.expected(1), "detour_at": func() string {
+			if w.DetAt == nil {
+				return ""
+			}
+			return w.DetAt.Name
+		}()}
 }
 
 func driveC06(c *Ctx) {
@@ -364,6 +491,9 @@ func driveC06(c *Ctx) {
 			if w.Dynamic && w.expected(call.Path) != w.Static.Marker && prevPath >= 0 && prevPath != call.Path {
 				nontrivial = true
 			}
+			if w.Fanout && w.Dynamic && w.expected(0) != w.expected(1) {
+				nontrivial = true
+			}
 			prevPath = call.Path
 		}
 	}
@@ -380,13 +510,24 @@ func driveC06(c *Ctx) {
 	if len(w.Docs) > 0 {
 		c.Probe("loader-supplied-resources")
 	}
+	if w.Fanout {
+		c.Probe("fan-out-root")
+	}
+	if w.Detour != nil {
+		c.Probe("detour-through-failing-branch")
+	}
+	for _, r := range w.Res {
+		if r.Entry != "" && (contains(w.Paths[0], r) || contains(w.Paths[1], r)) {
+			c.Probe("resource-entered-at-subschema")
+			break
+		}
+	}
 	if w.Static != w.Final && !contains(w.Paths[0], w.Static) && !contains(w.Paths[1], w.Static) && w.Static != w.Root {
 		c.Probe("static-target-off-path")
 	}
 	if c.logOn {
 		c.Sample = map[string]any{"world": w.describe(), "history": hist}
 	}
-	_ = strings.Join
 }
 
 func contains(rs []*dynRes, r *dynRes) bool {
